@@ -173,6 +173,10 @@ static sqfs_s32 lzma_uncomp_block(sqfs_compressor_t *base, const sqfs_u8 *in,
 			return 0;
 	}
 
+	/* what was unpacked must be what the header announced */
+	if (strm.total_out != hdrsize)
+		return SQFS_ERROR_CORRUPTED;
+
 	return hdrsize;
 }
 
